@@ -1,10 +1,163 @@
 (* C09 — proofs about the KAURI tree model (Model/KauriTree.v).
-   Plan: (1) list / counting / argmax lemmas; (2) the routing relation [seg] and its link with the
+   Plan: (0) the regenerated rules Gen/KauriFitRules.v unfolded into the concrete equations of the model;
+   (1) list / counting / argmax lemmas; (2) the routing relation [seg] and its link with the
    fuelled [route] / [visits]; (3) the loop invariant [Inv], established by [init] and preserved by
    [step] for every admissible split; (4) reachability and the loop; (5) the clauses of C09. *)
 From Coq Require Import List Arith Lia ZArith Bool.
-From GV Require Import Common.Num Model.KauriTree.
+From GV Require Import Common.Num Gen.KauriFitRules Model.KauriTree.
 Import ListNotations.
+
+(* ================================================================== 0. the regenerated rules, unfolded *)
+(* The hand-written copy of the holes is Model.KauriTree.golden_fit_rules; [rules_golden] (end of this file) makes
+   any drift of the regenerated record visible.  The unfolding lemmas below state, by
+   computation with the REGENERATED rules, the concrete equations the rest of the development relies on:
+   a changed rule breaks them (and with them L1) before it can silently change the meaning of a theorem. *)
+
+(* ---- Tree: __init__, _add_child, predict *)
+Lemma rule_tree_init : tree_init = [leaf_node 0 0].
+Proof. reflexivity. Qed.
+(* the hand-written _add_child: children n_nodes and n_nodes+1, both at depth depths[father]+1, targets (left, right) *)
+Definition add_child_h (t : tree) (father : nat) (sp : ksplit) : tree :=
+  let n := length t in
+  let dep := S (nd_depth (get_node t father)) in
+  upd_nth t father (fun nd =>
+    {| nd_left := Some n; nd_right := Some (S n); nd_feature := Some (s_feature sp);
+       nd_threshold := Some (s_threshold sp); nd_target := nd_target nd; nd_depth := nd_depth nd |})
+  ++ [leaf_node (s_left sp) dep; leaf_node (s_right sp) dep].
+Lemma rule_add_child t father sp : add_child t father sp = add_child_h t father sp.
+Proof.
+  change (add_child t father sp) with
+    (upd_nth t father (fun nd =>
+       {| nd_left := Some (length t); nd_right := Some (length t + 1); nd_feature := Some (s_feature sp);
+          nd_threshold := Some (s_threshold sp); nd_target := nd_target nd; nd_depth := nd_depth nd |})
+     ++ [leaf_node (s_left sp) (nd_depth (get_node t father) + 1); leaf_node (s_right sp) (nd_depth (get_node t father) + 1)]).
+  unfold add_child_h. rewrite !Nat.add_1_r. reflexivity.
+Qed.
+Lemma rule_route_0 t x a : route 0 t x a = None.
+Proof. reflexivity. Qed.
+Lemma rule_route_S fu t x a : route (S fu) t x a =
+  match nth_error t a with
+  | None => None
+  | Some nd =>
+    match nd_left nd with
+    | None => Some a
+    | Some l =>
+      match nd_right nd, nd_feature nd, nd_threshold nd with
+      | Some r, Some f, Some th => if (xval x f <=? th)%Z then route fu t x l else route fu t x r
+      | _, _, _ => None
+      end
+    end
+  end.
+Proof. reflexivity. Qed.
+Lemma rule_visits_0 t x a b : visits 0 t x a b = false.
+Proof. reflexivity. Qed.
+Lemma rule_visits_S fu t x a b : visits (S fu) t x a b =
+  match nth_error t a with
+  | None => false
+  | Some nd =>
+    if a =? b then true else
+    match nd_left nd, nd_right nd, nd_feature nd, nd_threshold nd with
+    | Some l, Some r, Some f, Some th => if (xval x f <=? th)%Z then visits fu t x l b else visits fu t x r b
+    | _, _, _, _ => false
+    end
+  end.
+Proof. reflexivity. Qed.
+
+Lemma rule_route_leaf t x : route_leaf t x = route (length t) t x 0.
+Proof. reflexivity. Qed.
+Lemma rule_predict_row t x :
+  predict_row t x = match route_leaf t x with Some a => Some (nd_target (get_node t a)) | None => None end.
+Proof. reflexivity. Qed.
+Lemma rule_predict t X : predict t X = map (predict_row t) X.
+Proof. reflexivity. Qed.
+Lemma rule_node_count t X a : node_count t X a = countb (length X) (fun i => visits (length t) t (nth i X []) 0 a).
+Proof. reflexivity. Qed.
+
+(* ---- Kauri.fit: effective limits, initial state, guard, loop *)
+Lemma rule_max_leaves P n : eff_max_leaves P n = match max_leaves P with None => n | Some m => m end.
+Proof. reflexivity. Qed.
+Lemma rule_max_depth P n : eff_max_depth P n = match max_depth P with None => n | Some m => m end.
+Proof. reflexivity. Qed.
+(* random_state.choice(d, size=max_features, replace=False) is always legal: 1 <= max_features <= d *)
+Lemma rule_max_features mf d : 1 <= d -> 1 <= eff_max_features mf d <= d.
+Proof.
+  intros Hd. change (eff_max_features mf d) with (match mf with Some v => Nat.min (Nat.max 1 v) d | None => d end).
+  destruct mf as [v|]; lia.
+Qed.
+Definition init_h (P : params) (X : data) : state :=
+  {| st_Z := fun l _ => l =? 0; st_Y := fun k l => (k =? 0) && (l =? 0); st_nl := 1; st_nc := 1;
+     st_queue := if min_samples_split P <=? length X then [0] else [];
+     st_l2n := fun x => if x =? 0 then 0 else 0; st_tree := [leaf_node 0 0] |}.
+Lemma rule_init P X : init P X = init_h P X.
+Proof. reflexivity. Qed.
+Lemma rule_guard P X st :
+  guard P X st = (st_nl st <? eff_max_leaves P (length X)) && negb (0 =? length (st_queue st)).
+Proof. reflexivity. Qed.
+Lemma rule_loop_0 P X choose st : loop 0 P X choose st = OutOfFuel.
+Proof. reflexivity. Qed.
+Lemma rule_loop_S fu P X choose st : loop (S fu) P X choose st =
+  if guard P X st then match choose st with None => Done st | Some sp => loop fu P X choose (step P X st sp) end else Done st.
+Proof. reflexivity. Qed.
+Lemma rule_fit P X choose : fit P X choose = loop (S (eff_max_leaves P (length X))) P X choose (init P X).
+Proof. reflexivity. Qed.
+
+(* ---- Kauri.fit: one iteration, field by field *)
+Lemma rule_goes_left X st sp i :
+  goes_left X st sp i = st_Z st (s_leaf sp) i && (feat X i (s_feature sp) <=? s_threshold sp)%Z.
+Proof. reflexivity. Qed.
+Lemma rule_goes_right X st sp i :
+  goes_right X st sp i = st_Z st (s_leaf sp) i && negb (feat X i (s_feature sp) <=? s_threshold sp)%Z.
+Proof. reflexivity. Qed.
+(* Z[leaf, right_indices] = 0 then Z[n_leaves, right_indices] = 1 (the later assignment wins) *)
+Lemma rule_step_Z P X st sp l i : st_Z (step P X st sp) l i =
+  if (l =? st_nl st) && goes_right X st sp i then true
+  else if (l =? s_leaf sp) && goes_right X st sp i then false else st_Z st l i.
+Proof. reflexivity. Qed.
+(* k = Y[:, leaf].argmax(); Y[k, leaf] = 0; Y[left_target, leaf] = 1; Y[right_target, n_leaves] = 1 *)
+Lemma rule_step_Y P X st sp c l : st_Y (step P X st sp) c l =
+  if (c =? s_right sp) && (l =? st_nl st) then true
+  else if (c =? s_left sp) && (l =? s_leaf sp) then true
+  else if (c =? cluster_of P st (s_leaf sp)) && (l =? s_leaf sp) then false else st_Y st c l.
+Proof. reflexivity. Qed.
+Lemma rule_step_nl P X st sp : st_nl (step P X st sp) = S (st_nl st).
+Proof. change (st_nl (step P X st sp)) with (st_nl st + 1). apply Nat.add_1_r. Qed.
+Lemma rule_step_nc P X st sp : st_nc (step P X st sp) =
+  if (st_nc st <=? s_left sp) && (st_nc st <=? s_right sp) then st_nc st + 2
+  else if (st_nc st <=? s_left sp) || (st_nc st <=? s_right sp) then st_nc st + 1 else st_nc st.
+Proof. reflexivity. Qed.
+Lemma rule_step_tree P X st sp : st_tree (step P X st sp) = add_child_h (st_tree st) (st_l2n st (s_leaf sp)) sp.
+Proof. change (st_tree (step P X st sp)) with (add_child (st_tree st) (st_l2n st (s_leaf sp)) sp). apply rule_add_child. Qed.
+(* leaf2node[leaf] = 2*n_leaves-1 ; leaf2node[n_leaves] = 2*n_leaves *)
+Lemma rule_step_l2n P X st sp : st_l2n (step P X st sp) =
+  upd (upd (st_l2n st) (s_leaf sp) (2 * st_nl st - 1)) (st_nl st) (2 * st_nl st).
+Proof. reflexivity. Qed.
+(* remove(leaf); if parent_depth + 1 < max_depth: append leaf if |left| >= min_samples_split, then n_leaves if |right| >= .. *)
+Lemma rule_step_queue P X st sp : st_queue (step P X st sp) =
+  if S (nd_depth (get_node (add_child_h (st_tree st) (st_l2n st (s_leaf sp)) sp) (st_l2n st (s_leaf sp)))) <? eff_max_depth P (length X)
+  then remove_first (s_leaf sp) (st_queue st)
+       ++ (if min_samples_split P <=? countb (length X) (goes_left X st sp) then [s_leaf sp] else [])
+       ++ (if min_samples_split P <=? countb (length X) (goes_right X st sp) then [st_nl st] else [])
+  else remove_first (s_leaf sp) (st_queue st).
+Proof.
+  change (st_queue (step P X st sp)) with
+    (if nd_depth (get_node (add_child (st_tree st) (st_l2n st (s_leaf sp)) sp) (st_l2n st (s_leaf sp))) + 1 <? eff_max_depth P (length X)
+     then remove_first (s_leaf sp) (st_queue st)
+          ++ ((if min_samples_split P <=? countb (length X) (goes_left X st sp) then [s_leaf sp] else [])
+              ++ ((if min_samples_split P <=? countb (length X) (goes_right X st sp) then [st_nl st] else []) ++ []))
+     else remove_first (s_leaf sp) (st_queue st)).
+  rewrite rule_add_child, Nat.add_1_r, app_nil_r. reflexivity.
+Qed.
+
+(* labels_ = (Y @ Z).argmax(0) ; leaves_ = Z.argmax(0) *)
+Lemma rule_label_of P X st i : label_of P X st i =
+  argmax_nat (max_clusters P) (fun k => sumn (eff_max_leaves P (length X)) (fun l => b2n (st_Y st k l) * b2n (st_Z st l i))).
+Proof. reflexivity. Qed.
+Lemma rule_leaf_of P X st i : leaf_of P X st i = argmax_nat (eff_max_leaves P (length X)) (fun l => b2n (st_Z st l i)).
+Proof. reflexivity. Qed.
+Lemma rule_labels P X st : labels P X st = map (label_of P X st) (seq 0 (length X)).
+Proof. reflexivity. Qed.
+Lemma rule_leaves P X st : leaves P X st = map (leaf_of P X st) (seq 0 (length X)).
+Proof. reflexivity. Qed.
 
 (* ================================================================== 1. basics *)
 Lemma countb_ext n p q : (forall i, i < n -> p i = q i) -> countb n p = countb n q.
@@ -187,7 +340,7 @@ Lemma route_visits_total d t x : tree_ok d t ->
 Proof.
   intros Hok. induction fuel as [|fu IH]; intros a Ha Hf; [lia|].
   destruct (nth_error t a) as [nd|] eqn:Hn; [|apply nth_error_None in Hn; lia].
-  cbn [route]. rewrite Hn. destruct (Hok a nd Hn) as [Hl | (l & r & f & th & Hi & Hal & Hr & Hrl & _)].
+  rewrite rule_route_S, Hn. destruct (Hok a nd Hn) as [Hl | (l & r & f & th & Hi & Hal & Hr & Hrl & _)].
   - destruct Hl as (H1 & H2 & H3 & H4). rewrite H1. exists a, nd. split; [reflexivity|]. split; [assumption|]. split; [repeat split; assumption|]. econstructor; eassumption.
   - pose proof Hi as (H1 & H2 & H3 & H4). rewrite H1, H2, H3, H4.
     destruct (xval x f <=? th)%Z eqn:E.
@@ -202,12 +355,12 @@ Proof.
   intros Hok Hs Hb Hl. assert (0 < length t) as Hlen.
   { inversion Hs as [? nd Hn|? nd ? ? ? ? ? Hn]; subst; apply nth_error_Some; congruence. }
   destruct (route_visits_total d t x Hok (length t) 0 Hlen ltac:(lia)) as (b' & nb' & Hr & Hb' & Hl' & Hs').
-  unfold route_leaf. rewrite Hr. f_equal. eapply seg_leaf_unique; eassumption.
+  rewrite rule_route_leaf, Hr. f_equal. eapply seg_leaf_unique; eassumption.
 Qed.
 
 Lemma visits_seg t x b : forall fuel a, visits fuel t x a b = true -> seg t x a b.
 Proof.
-  induction fuel as [|fu IH]; intros a H; [discriminate|]. cbn [visits] in H.
+  induction fuel as [|fu IH]; intros a H; [rewrite rule_visits_0 in H; discriminate|]. rewrite rule_visits_S in H.
   destruct (nth_error t a) as [nd|] eqn:Hn; [|discriminate].
   destruct (a =? b) eqn:E; [apply Nat.eqb_eq in E; subst; econstructor; eassumption|].
   destruct (nd_left nd) as [l|] eqn:H1; [|discriminate]. destruct (nd_right nd) as [r|] eqn:H2; [|discriminate].
@@ -219,9 +372,9 @@ Lemma seg_visits d t x a b : tree_ok d t -> seg t x a b -> forall fuel, length t
 Proof.
   intros Hok. induction 1 as [a nd Hn | a nd l r f th b Hn Hi Hs IH]; intros fuel Hf.
   - assert (a < length t) by (apply nth_error_Some; congruence).
-    destruct fuel as [|fu]; [lia|]. cbn [visits]. rewrite Hn, Nat.eqb_refl. reflexivity.
+    destruct fuel as [|fu]; [lia|]. rewrite rule_visits_S, Hn, Nat.eqb_refl. reflexivity.
   - assert (a < length t) by (apply nth_error_Some; congruence).
-    destruct fuel as [|fu]; [lia|]. cbn [visits]. rewrite Hn. destruct (a =? b); [reflexivity|].
+    destruct fuel as [|fu]; [lia|]. rewrite rule_visits_S, Hn. destruct (a =? b); [reflexivity|].
     destruct (Hok a nd Hn) as [Hl | (l' & r' & f' & th' & Hi' & Hal & Hr & Hrl & _)]; [exfalso; eapply leaf_not_internal; eassumption|].
     destruct (internal_fun _ _ _ _ _ _ _ _ _ Hi Hi') as (<- & <- & <- & <-).
     pose proof Hi as (H1 & H2 & H3 & H4). rewrite H1, H2, H3, H4.
@@ -232,34 +385,34 @@ Qed.
 Section AddChild.
 Variables (t : tree) (father : nat) (sp : ksplit) (fnd : node).
 Hypothesis Hfather : nth_error t father = Some fnd.
-Let t' := add_child t father sp.
+Let t' := add_child_h t father sp.
 Let n0 := length t.
 Definition new_father : node :=
   {| nd_left := Some n0; nd_right := Some (S n0); nd_feature := Some (s_feature sp);
      nd_threshold := Some (s_threshold sp); nd_target := nd_target fnd; nd_depth := nd_depth fnd |}.
 
 Lemma add_child_length : length t' = n0 + 2.
-Proof. unfold t', add_child. rewrite app_length, upd_nth_length. cbn [length]. reflexivity. Qed.
+Proof. unfold t', add_child_h. rewrite app_length, upd_nth_length. cbn [length]. reflexivity. Qed.
 Lemma father_lt : father < n0.
 Proof. apply nth_error_Some. unfold n0. congruence. Qed.
 Lemma add_child_other a : a < n0 -> a <> father -> nth_error t' a = nth_error t a.
 Proof.
-  intros Ha Hne. unfold t', add_child. rewrite nth_error_app1 by (rewrite upd_nth_length; exact Ha).
+  intros Ha Hne. unfold t', add_child_h. rewrite nth_error_app1 by (rewrite upd_nth_length; exact Ha).
   apply upd_nth_other. assumption.
 Qed.
 Lemma add_child_father : nth_error t' father = Some new_father.
 Proof.
-  unfold t', add_child. rewrite nth_error_app1 by (rewrite upd_nth_length; exact father_lt).
+  unfold t', add_child_h. rewrite nth_error_app1 by (rewrite upd_nth_length; exact father_lt).
   rewrite upd_nth_same, Hfather. reflexivity.
 Qed.
 Lemma add_child_left : nth_error t' n0 = Some (leaf_node (s_left sp) (S (nd_depth fnd))).
 Proof.
-  unfold t', add_child. rewrite nth_error_app2 by (rewrite upd_nth_length; apply Nat.le_refl).
+  unfold t', add_child_h. rewrite nth_error_app2 by (rewrite upd_nth_length; apply Nat.le_refl).
   rewrite upd_nth_length, Nat.sub_diag. cbn [nth_error]. rewrite (nth_error_get _ _ _ Hfather). reflexivity.
 Qed.
 Lemma add_child_right : nth_error t' (S n0) = Some (leaf_node (s_right sp) (S (nd_depth fnd))).
 Proof.
-  unfold t', add_child. rewrite nth_error_app2 by (rewrite upd_nth_length; unfold n0; lia).
+  unfold t', add_child_h. rewrite nth_error_app2 by (rewrite upd_nth_length; unfold n0; lia).
   rewrite upd_nth_length. replace (S n0 - length t) with 1 by (unfold n0; lia). cbn [nth_error].
   rewrite (nth_error_get _ _ _ Hfather). reflexivity.
 Qed.
@@ -319,7 +472,7 @@ Proof.
 Qed.
 Lemma add_child_count_leaves : count_leaves t' = S (count_leaves t).
 Proof.
-  unfold count_leaves, t', add_child. rewrite filter_app, app_length. cbn [filter is_leafb leaf_node nd_left length].
+  unfold count_leaves, t', add_child_h. rewrite filter_app, app_length. cbn [filter is_leafb leaf_node nd_left length].
   pose proof (upd_nth_filter is_leafb t father
     (fun nd => {| nd_left := Some (length t); nd_right := Some (S (length t)); nd_feature := Some (s_feature sp);
                   nd_threshold := Some (s_threshold sp); nd_target := nd_target nd; nd_depth := nd_depth nd |}) fnd Hfather) as H.
@@ -354,7 +507,7 @@ Qed.
 
 Lemma admissibleb_iff P d X st sp : admissibleb P d X st sp = true <-> admissible P d X st sp.
 Proof.
-  unfold admissibleb. rewrite !andb_true_iff, !orb_true_iff, !andb_true_iff, negb_true_iff.
+  unfold admissibleb, admissibleb_g. fold goes_left goes_right. rewrite !andb_true_iff, !orb_true_iff, !andb_true_iff, negb_true_iff.
   rewrite existsb_eqb_in, existsb_exists, !Nat.ltb_lt, !Nat.leb_le, !Nat.eqb_eq, Nat.eqb_neq.
   split.
   - intros ((((((H1 & H2) & (i & Hi & H3)) & H4) & H5) & H6) & H7).
@@ -378,10 +531,22 @@ Record valid (P : params) (d : nat) (X : data) : Prop := {
   v_mss : 2 <= min_samples_split P;
   v_msl : 1 <= min_samples_leaf P;
   v_leaves : forall m, max_leaves P = Some m -> 2 <= m;
-  v_contra : 2 * min_samples_leaf P <= min_samples_split P;
+  (* the cross-parameter test of fit does not raise *)
+  v_contra : r_contradiction kauri_fit_rules (min_samples_leaf P) (min_samples_split P) = false;
   v_n : 1 <= length X;
-  v_n_msl : min_samples_leaf P <= length X;
+  (* validate_data(..., ensure_min_samples=..) accepts X *)
+  v_n_msl : r_ensure_min_samples kauri_fit_rules (min_samples_leaf P) (min_samples_split P) <= length X;
   v_d : 1 <= d }.
+
+Lemma valid_contra P d X : valid P d X -> 2 * min_samples_leaf P <= min_samples_split P.
+Proof.
+  intros V. pose proof (v_contra _ _ _ V) as H.
+  change (r_contradiction kauri_fit_rules (min_samples_leaf P) (min_samples_split P))
+    with (min_samples_split P <? 2 * min_samples_leaf P) in H.
+  apply Nat.ltb_ge in H. exact H.
+Qed.
+Lemma valid_n_msl P d X : valid P d X -> min_samples_leaf P <= length X.
+Proof. intros V. exact (v_n_msl _ _ _ V). Qed.
 
 Record Inv (P : params) (d : nat) (X : data) (st : state) : Prop := {
   I_nl : 1 <= st_nl st <= eff_max_leaves P (length X);
@@ -417,14 +582,15 @@ Record Inv (P : params) (d : nat) (X : data) (st : state) : Prop := {
 Lemma inv_init P d X : valid P d X -> Inv P d X (init P X).
 Proof.
   intros V. assert (1 <= eff_max_leaves P (length X)) as HL.
-  { unfold eff_max_leaves. destruct (max_leaves P) as [m|] eqn:E; [pose proof (v_leaves _ _ _ V m E); lia|apply (v_n _ _ _ V)]. }
+  { rewrite rule_max_leaves. destruct (max_leaves P) as [m|] eqn:E; [pose proof (v_leaves _ _ _ V m E); lia|apply (v_n _ _ _ V)]. }
   assert (1 <= eff_max_depth P (length X)) as HD.
-  { unfold eff_max_depth. destruct (max_depth P) as [m|] eqn:E; [apply (v_depth _ _ _ V m E)|apply (v_n _ _ _ V)]. }
-  assert (forall a nd, nth_error tree_init a = Some nd -> a = 0 /\ nd = leaf_node 0 0) as Hone.
+  { rewrite rule_max_depth. destruct (max_depth P) as [m|] eqn:E; [apply (v_depth _ _ _ V m E)|apply (v_n _ _ _ V)]. }
+  rewrite rule_init.
+  assert (forall a nd, nth_error [leaf_node 0 0] a = Some nd -> a = 0 /\ nd = leaf_node 0 0) as Hone.
   { intros [|a] nd H; cbn in H; [injection H as <-; tauto|destruct a; discriminate]. }
-  assert (leaf_size X (init P X) 0 = length X) as Hsz.
-  { unfold leaf_size. cbn [init st_Z]. generalize (length X). intros m. induction m as [|m IH]; [reflexivity|]. cbn [countb]. rewrite IH. cbn. lia. }
-  constructor; cbn [init st_nl st_nc st_tree st_Z st_Y st_l2n st_queue].
+  assert (leaf_size X (init_h P X) 0 = length X) as Hsz.
+  { unfold leaf_size. cbn [init_h st_Z]. generalize (length X). intros m. induction m as [|m IH]; [reflexivity|]. cbn [countb]. rewrite IH. cbn. lia. }
+  constructor; cbn [init_h st_nl st_nc st_tree st_Z st_Y st_l2n st_queue].
   - lia.
   - reflexivity.
   - reflexivity.
@@ -437,8 +603,8 @@ Proof.
   - intros i Hi. exists 0. split; [lia|reflexivity].
   - intros l l' i H1 H2. apply Nat.eqb_eq in H1, H2. congruence.
   - intros l i Hl. apply Nat.eqb_neq. lia.
-  - intros l Hl. replace l with 0 by lia. rewrite Hsz. apply (v_n_msl _ _ _ V).
-  - intros l i Hl Hi _. eapply seg_refl. reflexivity.
+  - intros l Hl. replace l with 0 by lia. rewrite Hsz. apply (valid_n_msl _ _ _ V).
+  - intros l i Hl Hi _. replace l with 0 by lia. eapply seg_refl. reflexivity.
   - intros l Hl. exists 0. replace l with 0 by lia. split; [lia|reflexivity].
   - intros k k' l H1 H2. apply andb_true_iff in H1, H2. destruct H1 as (H1 & _), H2 as (H2 & _). apply Nat.eqb_eq in H1, H2. congruence.
   - intros k l Hl. apply andb_false_iff. right. apply Nat.eqb_neq. lia.
@@ -446,7 +612,7 @@ Proof.
   - intros k Hk. exists 0. replace k with 0 by lia. split; [lia|reflexivity].
   - destruct (min_samples_split P <=? length X); [constructor; [intros []|constructor]|constructor].
   - intros l Hl. destruct (min_samples_split P <=? length X) eqn:E; [|destruct Hl].
-    destruct Hl as [<-|[]]. apply Nat.leb_le in E. rewrite Hsz. cbn. repeat split; lia.
+    destruct Hl as [<-|[]]. apply Nat.leb_le in E. rewrite Hsz. split; [lia|split; [exact E|exact HD]].
   - intros a nd l r f th H Hi. destruct (Hone a nd H) as (-> & ->). destruct Hi as (Hi & _). discriminate.
 Qed.
 
@@ -490,7 +656,7 @@ Let st' := step P X st sp.
 Lemma sp_leaf_lt : leaf < nl.
 Proof. apply (I_q _ _ _ _ HI). apply (ad_queue _ _ _ _ _ HA). Qed.
 Lemma sp_nl_lt : nl < eff_max_leaves P n.
-Proof. unfold guard in HG. apply andb_true_iff in HG. destruct HG as (H & _). apply Nat.ltb_lt in H. exact H. Qed.
+Proof. pose proof HG as H0. rewrite rule_guard in H0. apply andb_true_iff in H0. destruct H0 as (H & _). apply Nat.ltb_lt in H. exact H. Qed.
 Lemma sp_nl_pos : 1 <= nl.
 Proof. apply (I_nl _ _ _ _ HI). Qed.
 Lemma sp_father : exists fnd, nth_error t father = Some fnd /\ is_leaf fnd /\ st_Y st (nd_target fnd) leaf = true.
@@ -505,27 +671,27 @@ Proof.
   intros k' _ H. eapply (I_Yuniq _ _ _ _ HI); eassumption.
 Qed.
 Lemma right_in_leaf i : right i = true -> st_Z st leaf i = true.
-Proof. unfold right, goes_right. intros H. apply andb_true_iff in H. apply H. Qed.
+Proof. unfold right. rewrite rule_goes_right. intros H. apply andb_true_iff in H. apply H. Qed.
 
-Lemma step_nl : st_nl st' = S nl. Proof. reflexivity. Qed.
-Lemma step_tree : st_tree st' = add_child t father sp. Proof. reflexivity. Qed.
+Lemma step_nl : st_nl st' = S nl. Proof. apply rule_step_nl. Qed.
+Lemma step_tree : st_tree st' = add_child_h t father sp. Proof. apply rule_step_tree. Qed.
 
 Lemma Z'_true l i : st_Z st' l i = true <->
   (l = leaf /\ st_Z st leaf i = true /\ right i = false) \/ (l = nl /\ right i = true) \/
   (l <> leaf /\ l <> nl /\ st_Z st l i = true).
 Proof.
-  change (st_Z st' l i) with (if l =? leaf then (if right i then false else st_Z st l i)
-                              else if l =? nl then (if right i then true else st_Z st l i) else st_Z st l i).
+  unfold st'. rewrite rule_step_Z. fold leaf nl right.
   pose proof sp_leaf_lt as Hlt.
-  destruct (l =? leaf) eqn:E1; [apply Nat.eqb_eq in E1|apply Nat.eqb_neq in E1].
-  - subst l. destruct (right i) eqn:Er.
+  destruct (l =? nl) eqn:E2; [apply Nat.eqb_eq in E2|apply Nat.eqb_neq in E2];
+    (destruct (l =? leaf) eqn:E1; [apply Nat.eqb_eq in E1|apply Nat.eqb_neq in E1]); try lia.
+  - subst l. cbn [andb]. destruct (right i) eqn:Er.
+    + split; [intros _; right; left; tauto|reflexivity].
+    + rewrite (I_Zout _ _ _ _ HI nl i (Nat.le_refl _)). split; [discriminate|].
+      intros [(H & _)|[(_ & H)|(_ & H & _)]]; [lia|discriminate|congruence].
+  - subst l. cbn [andb]. destruct (right i) eqn:Er.
     + split; [discriminate|]. intros [(_ & _ & H)|[(H & _)|(H & _)]]; [discriminate|lia|congruence].
     + split; [intros H; left; tauto|]. intros [(_ & H & _)|[(H & _)|(H & _)]]; [assumption|lia|congruence].
-  - destruct (l =? nl) eqn:E2; [apply Nat.eqb_eq in E2|apply Nat.eqb_neq in E2].
-    + subst l. rewrite (I_Zout _ _ _ _ HI nl i (Nat.le_refl _)). destruct (right i) eqn:Er.
-      * split; [intros _; right; left; tauto|reflexivity].
-      * split; [discriminate|]. intros [(H & _)|[(_ & H)|(_ & H & _)]]; [congruence|discriminate|congruence].
-    + split; [intros H; right; right; tauto|]. intros [(H & _)|[(H & _)|(_ & _ & H)]]; [congruence|congruence|assumption].
+  - cbn [andb]. split; [intros H; right; right; tauto|]. intros [(H & _)|[(H & _)|(_ & _ & H)]]; [congruence|congruence|assumption].
 Qed.
 
 Lemma Y'_true c l : st_Y st' c l = true <->
@@ -593,25 +759,20 @@ Qed.
 (* sizes of the leaves after the split *)
 Lemma size'_leaf : leaf_size X st' leaf = countb n (goes_left X st sp).
 Proof.
-  unfold leaf_size. apply countb_ext. intros i _.
-  change (st_Z st' leaf i) with (if leaf =? leaf then (if right i then false else st_Z st leaf i)
-                                 else if leaf =? nl then (if right i then true else st_Z st leaf i) else st_Z st leaf i).
-  rewrite Nat.eqb_refl. unfold right, goes_right, goes_left. fold leaf.
+  unfold leaf_size. apply countb_ext. intros i _. pose proof sp_leaf_lt. unfold st'. rewrite rule_step_Z. fold leaf nl.
+  replace (leaf =? nl) with false by (symmetry; apply Nat.eqb_neq; lia). rewrite Nat.eqb_refl. cbn [andb].
+  rewrite rule_goes_left, rule_goes_right. fold leaf.
   destruct (st_Z st leaf i); destruct (feat X i (s_feature sp) <=? s_threshold sp)%Z; reflexivity.
 Qed.
 Lemma size'_new : leaf_size X st' nl = countb n right.
 Proof.
-  unfold leaf_size. apply countb_ext. intros i _. pose proof sp_leaf_lt.
-  change (st_Z st' nl i) with (if nl =? leaf then (if right i then false else st_Z st nl i)
-                               else if nl =? nl then (if right i then true else st_Z st nl i) else st_Z st nl i).
-  replace (nl =? leaf) with false by (symmetry; apply Nat.eqb_neq; lia). rewrite Nat.eqb_refl.
+  unfold leaf_size. apply countb_ext. intros i _. pose proof sp_leaf_lt. unfold st'. rewrite rule_step_Z. fold leaf nl right.
+  replace (nl =? leaf) with false by (symmetry; apply Nat.eqb_neq; lia). rewrite Nat.eqb_refl. cbn [andb].
   rewrite (I_Zout _ _ _ _ HI nl i (Nat.le_refl _)). destruct (right i); reflexivity.
 Qed.
 Lemma size'_other l : l <> leaf -> l <> nl -> leaf_size X st' l = leaf_size X st l.
 Proof.
-  intros H1 H2. unfold leaf_size. apply countb_ext. intros i _.
-  change (st_Z st' l i) with (if l =? leaf then (if right i then false else st_Z st l i)
-                              else if l =? nl then (if right i then true else st_Z st l i) else st_Z st l i).
+  intros H1 H2. unfold leaf_size. apply countb_ext. intros i _. unfold st'. rewrite rule_step_Z. fold leaf nl.
   replace (l =? leaf) with false by (symmetry; apply Nat.eqb_neq; lia).
   replace (l =? nl) with false by (symmetry; apply Nat.eqb_neq; lia). reflexivity.
 Qed.
@@ -726,14 +887,14 @@ Proof.
     + rewrite size'_new. apply (ad_right _ _ _ _ _ HA).
     + rewrite size'_other by assumption. apply (I_Zsize _ _ _ _ HI). fold nl. lia.
   - intros l i Hl Hi HZ. apply Z'_true in HZ.
-    assert (forall b, st_Z st leaf i = true -> seg (add_child t father sp) (nth i X []) father b -> seg (add_child t father sp) (nth i X []) 0 b) as Hgo.
+    assert (forall b, st_Z st leaf i = true -> seg (add_child_h t father sp) (nth i X []) father b -> seg (add_child_h t father sp) (nth i X []) 0 b) as Hgo.
     { intros b Hz Hs. eapply seg_trans; [|exact Hs]. apply (seg_add_child t father sp fnd Hfn Hfl).
       apply (I_Zseg _ _ _ _ HI leaf i Hll Hi Hz). }
     pose proof (seg_add_child_new t father sp fnd Hfn (nth i X [])) as Hnew.
     destruct HZ as [(-> & A & A')|[(-> & A)|(A1 & A2 & A3)]].
-    + rewrite l2n'_leaf. apply Hgo; [exact A|]. unfold right, goes_right in A'. fold leaf in A'. rewrite A in A'. cbn [andb] in A'.
+    + rewrite l2n'_leaf. apply Hgo; [exact A|]. unfold right in A'. rewrite rule_goes_right in A'. fold leaf in A'. rewrite A in A'. cbn [andb] in A'.
       apply negb_false_iff in A'. unfold feat in A'. rewrite A' in Hnew. exact Hnew.
-    + rewrite l2n'_new. pose proof (right_in_leaf i A) as Hz. apply Hgo; [exact Hz|]. unfold right, goes_right in A. fold leaf in A. rewrite Hz in A.
+    + rewrite l2n'_new. pose proof (right_in_leaf i A) as Hz. apply Hgo; [exact Hz|]. unfold right in A. rewrite rule_goes_right in A. fold leaf in A. rewrite Hz in A.
       cbn [andb] in A. apply negb_true_iff in A. unfold feat in A. rewrite A in Hnew. exact Hnew.
     + rewrite l2n'_other by assumption. apply (seg_add_child t father sp fnd Hfn Hfl).
       apply (I_Zseg _ _ _ _ HI l i); [fold nl; lia|assumption|assumption].
@@ -793,13 +954,9 @@ Lemma step_queue_in l : In l (st_queue st') ->
    nd_depth (get_node (st_tree st') (st_l2n st' l)) < eff_max_depth P n).
 Proof.
   destruct sp_father as (fnd & Hfn & Hfl & HfY).
-  assert (nd_depth (get_node (add_child t father sp) father) = nd_depth fnd) as Hpd.
+  assert (nd_depth (get_node (add_child_h t father sp) father) = nd_depth fnd) as Hpd.
   { rewrite (nth_error_get _ _ _ (add_child_father t father sp fnd Hfn)). reflexivity. }
-  change (st_queue st') with
-    (if S (nd_depth (get_node (add_child t father sp) father)) <? eff_max_depth P n
-     then remove_first leaf (st_queue st) ++ (if min_samples_split P <=? countb n (goes_left X st sp) then [leaf] else [])
-          ++ (if min_samples_split P <=? countb n right then [nl] else [])
-     else remove_first leaf (st_queue st)).
+  change (st_queue st') with (st_queue (step P X st sp)). rewrite rule_step_queue. fold leaf nl n t father right.
   rewrite Hpd.
   assert (forall m, In m (remove_first leaf (st_queue st)) -> In m (st_queue st) /\ m <> leaf) as Hq0.
   { intros m Hm. split; [eapply remove_first_in; exact Hm|]. intros ->.
@@ -820,11 +977,7 @@ Lemma step_inv_q :
              nd_depth (get_node (st_tree st') (st_l2n st' l)) < eff_max_depth P (length X)).
 Proof.
   destruct sp_father as (fnd & Hfn & Hfl & HfY). pose proof sp_leaf_lt as Hll. split.
-  - change (st_queue st') with
-      (if S (nd_depth (get_node (add_child t father sp) father)) <? eff_max_depth P n
-       then remove_first leaf (st_queue st) ++ (if min_samples_split P <=? countb n (goes_left X st sp) then [leaf] else [])
-            ++ (if min_samples_split P <=? countb n right then [nl] else [])
-       else remove_first leaf (st_queue st)).
+  - change (st_queue st') with (st_queue (step P X st sp)). rewrite rule_step_queue. fold leaf nl n t father right.
     destruct (remove_first_nodup leaf (st_queue st) (I_q_nodup _ _ _ _ HI)) as (Hnd & Hnin).
     assert (~ In nl (remove_first leaf (st_queue st))) as Hnl.
     { intros H. apply remove_first_in in H. apply (I_q _ _ _ _ HI) in H. fold nl in H. lia. }
@@ -887,7 +1040,7 @@ Lemma loop_reachable P d X choose : oracle_ok P d X choose ->
   forall fuel st st', reachable P d X st -> loop fuel P X choose st = Done st' ->
   reachable P d X st' /\ (guard P X st' = false \/ choose st' = None).
 Proof.
-  intros Hor. induction fuel as [|fu IH]; intros st st' Hr H; [discriminate|]. cbn [loop] in H.
+  intros Hor. induction fuel as [|fu IH]; intros st st' Hr H; [rewrite rule_loop_0 in H; discriminate|]. rewrite rule_loop_S in H.
   destruct (guard P X st) eqn:HG.
   - destruct (choose st) as [sp|] eqn:Hc.
     + apply IH in H; [exact H|]. apply reach_step; [exact Hr|exact HG|apply Hor; assumption].
@@ -899,22 +1052,22 @@ Lemma loop_fuel P d X choose : valid P d X -> oracle_ok P d X choose ->
   forall fuel st, reachable P d X st -> eff_max_leaves P (length X) - st_nl st < fuel ->
   loop fuel P X choose st <> OutOfFuel.
 Proof.
-  intros V Hor. induction fuel as [|fu IH]; intros st Hr Hf; [lia|]. cbn [loop].
+  intros V Hor. induction fuel as [|fu IH]; intros st Hr Hf; [lia|]. rewrite rule_loop_S.
   destruct (guard P X st) eqn:HG; [|discriminate]. destruct (choose st) as [sp|] eqn:Hc; [|discriminate].
   apply IH; [apply reach_step; [exact Hr|exact HG|apply Hor; assumption]|].
-  change (st_nl (step P X st sp)) with (S (st_nl st)).
-  unfold guard in HG. apply andb_true_iff in HG. destruct HG as (HG & _). apply Nat.ltb_lt in HG. lia.
+  rewrite rule_step_nl.
+  rewrite rule_guard in HG. apply andb_true_iff in HG. destruct HG as (HG & _). apply Nat.ltb_lt in HG. lia.
 Qed.
 
 Lemma fit_terminates P d X choose : valid P d X -> oracle_ok P d X choose -> exists st, fit P X choose = Done st.
 Proof.
   intros V Hor. destruct (fit P X choose) as [st|] eqn:E; [exists st; reflexivity|]. exfalso. revert E.
-  unfold fit. apply (loop_fuel P d X choose V Hor); [apply reach_init|]. cbn [init st_nl]. lia.
+  rewrite rule_fit. apply (loop_fuel P d X choose V Hor); [apply reach_init|]. rewrite rule_init. cbn [init_h st_nl]. lia.
 Qed.
 
 Lemma fit_reachable P d X choose st : oracle_ok P d X choose -> fit P X choose = Done st ->
   reachable P d X st /\ (guard P X st = false \/ choose st = None).
-Proof. intros Hor H. eapply loop_reachable; [exact Hor|apply reach_init|exact H]. Qed.
+Proof. intros Hor H. rewrite rule_fit in H. eapply loop_reachable; [exact Hor|apply reach_init|exact H]. Qed.
 
 Lemma fit_inv P d X choose st : valid P d X -> oracle_ok P d X choose -> fit P X choose = Done st -> Inv P d X st.
 Proof. intros V Hor H. apply reachable_inv; [exact V|]. eapply fit_reachable; eassumption. Qed.
@@ -933,9 +1086,9 @@ Proof.
   intros Hi. destruct (I_Zcover _ _ _ _ HI i Hi) as (l & Hl & HZ). destruct (I_Ycover _ _ _ _ HI l Hl) as (k & Hk & HY).
   pose proof (I_nl _ _ _ _ HI) as Hnl. pose proof (I_nc _ _ _ _ HI) as Hnc.
   exists l, k. repeat split; try assumption.
-  - unfold leaf_of. apply (argmax_onehot _ (fun l => st_Z st l i)); [lia|exact HZ|].
+  - rewrite rule_leaf_of. apply (argmax_onehot _ (fun l => st_Z st l i)); [lia|exact HZ|].
     intros l' _ H. eapply (I_Zuniq _ _ _ _ HI); eassumption.
-  - unfold label_of. set (L := eff_max_leaves P (length X)). set (f := fun c => sumn L (fun l0 => b2n (st_Y st c l0) * b2n (st_Z st l0 i))).
+  - rewrite rule_label_of. set (L := eff_max_leaves P (length X)). set (f := fun c => sumn L (fun l0 => b2n (st_Y st c l0) * b2n (st_Z st l0 i))).
     destruct (argmax_spec (max_clusters P) f ltac:(lia)) as (Ha & Hmax).
     assert (1 <= f k) as Hfk.
     { unfold f. pose proof (sumn_ge L (fun l0 => b2n (st_Y st k l0) * b2n (st_Z st l0 i)) l ltac:(unfold L; lia)) as H.
@@ -996,7 +1149,7 @@ Qed.
 Lemma seg_node_count a (S : nat -> bool) :
   (forall i, i < n -> S i = true -> seg t (nth i X []) 0 a) -> countb n S <= node_count t X a.
 Proof.
-  intros H. unfold node_count. apply countb_mono. intros i Hi HS.
+  intros H. rewrite rule_node_count. apply countb_mono. intros i Hi HS.
   apply (seg_visits d); [apply (I_tree _ _ _ _ HI)|apply H; assumption|lia].
 Qed.
 
@@ -1031,7 +1184,7 @@ Proof.
   destruct (I_l2n _ _ _ _ HI l Hl) as (nd & Hn & Hlf & HYt).
   assert (route_leaf t (nth i X []) = Some (st_l2n st l)) as Hr.
   { eapply seg_route; [apply (I_tree _ _ _ _ HI)|apply (I_Zseg _ _ _ _ HI l i Hl Hi HZ)|exact Hn|exact Hlf]. }
-  split; [exact Hr|]. unfold predict_row. rewrite Hr. fold t in Hn. rewrite (nth_error_get _ _ _ Hn). f_equal.
+  split; [exact Hr|]. rewrite rule_predict_row, Hr. fold t in Hn. rewrite (nth_error_get _ _ _ Hn). f_equal.
   eapply (I_Yuniq _ _ _ _ HI); eassumption.
 Qed.
 
@@ -1047,7 +1200,7 @@ Lemma map_nth_seq {A B} (f : A -> B) (g : nat -> B) (dflt : A) (l : list A) :
 Proof. intros H. apply (map_nth_seq_gen f g dflt). exact H. Qed.
 Lemma final_predict_labels : predict t X = map Some (labels P X st).
 Proof.
-  unfold predict, labels. rewrite map_map. apply (map_nth_seq _ _ []). intros i Hi. apply final_predict_train. exact Hi.
+  rewrite rule_predict, rule_labels, map_map. apply (map_nth_seq _ _ []). intros i Hi. apply final_predict_train. exact Hi.
 Qed.
 
 (* any row, seen or not, receives the target of the one leaf whose region contains it *)
@@ -1058,7 +1211,7 @@ Proof.
   pose proof (I_len _ _ _ _ HI) as Hlen. pose proof (I_nl _ _ _ _ HI) as Hnl. fold t in Hlen.
   destruct (route_visits_total d t x (I_tree _ _ _ _ HI) (length t) 0 ltac:(lia) ltac:(lia)) as (b & nb & Hr & Hb & Hl & Hs).
   exists b, nb. split; [exact Hb|split; [exact Hl|split; [apply seg_iff_cpath; exact Hs|split]]].
-  - unfold predict_row, route_leaf. rewrite Hr, (nth_error_get _ _ _ Hb). reflexivity.
+  - rewrite rule_predict_row, rule_route_leaf, Hr, (nth_error_get _ _ _ Hb). reflexivity.
   - intros b' nd' Hb' Hl' Hreg. apply seg_iff_cpath in Hreg. eapply seg_leaf_unique; [exact Hreg|exact Hb'|exact Hl'|exact Hs|exact Hb|exact Hl].
 Qed.
 End Final.
@@ -1239,3 +1392,8 @@ Proof. intros ker. exact (final_score_train P d X st ker V HI). Qed.
 Lemma fit_stop : guard P X st = false \/ choose st = None.
 Proof. exact (proj2 (fit_reachable P d X choose st Hor Hfit)). Qed.
 End Fit.
+
+(* ================================================================== 9. drift of the regenerated holes *)
+(* stated last so that, when a hole changes, the specific [rule_*] equation above is the one reported *)
+Lemma rules_golden : kauri_fit_rules = golden_fit_rules.
+Proof. reflexivity. Qed.
